@@ -419,6 +419,17 @@ def run_config(ctx, rows_m, masks, T, k, p, C, tag, compare_model=True, raw_logi
                     continue
                 if key == "topkge" and 0 < top_p < 1:
                     continue  # the top-p filter may remove feasible actions
+                if key == "argmax":
+                    # float32 stream: tanh clipping saturates (tanh(x) = 1.0f for x ≳ 9) and the division by the temperature
+                    # rounds, so logits that are distinct for the exact oracle can be EQUAL scores for the code; a kept action
+                    # whose float32 score equals the maximal feasible float32 score is "a most likely action" (false alarm at
+                    # thorough seed 13: tanh_clipping 50, several logits > 9)
+                    z32 = ((torch.tanh(logits[b]) * float(C)) if C else logits[b]) / temp
+                    zf = [float(v) for v, keep in zip(z32.tolist(), mk) if keep]
+                    zk = [float(v) for v, kp in zip(z32.tolist(), kept[b].tolist()) if kp]
+                    if zf and zk and max(zk) >= max(zf):
+                        ctx.count("argmax check tie-skipped (float32 scores of the kept action and of the maximiser are equal)")
+                        continue
                 if key == "close":
                     if C != 0:
                         ctx.count("shift changes the distribution under tanh clipping (known scope note)")
@@ -439,6 +450,14 @@ def run_config(ctx, rows_m, masks, T, k, p, C, tag, compare_model=True, raw_logi
                         ulp = (max(abs(v) for v in fl) + abs(float(shift))) * 2.0 ** -23
                         if gap <= 8 * ulp:
                             ctx.count("shift check tie-skipped (top-k cut within float32 rounding of the shift)")
+                            continue
+                    # float32 stream: the rounding of `logit + shift` (≈ (|logit|+|shift|)·2^-23) is divided by the temperature
+                    # before the softmax; at T = 1e-3 it moves the probabilities of two near-equal logits by ~1e-4 (false alarm at
+                    # thorough seed 12: 2.152367 vs 2.152385, T = 0.001, shift −7.5) — the clause is about exact arithmetic
+                    if fl:
+                        amp = (max(abs(v) for v in fl) + abs(float(shift))) * 2.0 ** -23 / max(float(temp), 1e-30)
+                        if amp > 0.1 * tol:
+                            ctx.count("shift check skipped (float32 rounding of the shift amplified by 1/temperature exceeds the tolerance)")
                             continue
                     wit = {"shift": shift, "p": probs[b].tolist(), "p_shifted": lp2[b].exp().tolist(), **wit}
                 ctx.violation("spec-" + key, "property clause fails on the real code: " + txt,
